@@ -213,7 +213,9 @@ def discharge(check_id, job, pr, out, replay_kind, describe=None, timeout_ms=400
             # sound over-approximation: chosen sub-terms become fresh reals constrained only by lemmas that
             # earlier obligations of this path have established; unsat of the abstraction implies unsat of the original
             subs = [(t, z3.Real("abs!%s" % nm)) for (t, nm) in meta["abstract"]]
-            acons = [z3.substitute(c, *subs) for c in (light if light is not None else cons)]
+            # 'keep': the caller names the path constraints that matter (a subset of them: dropping the others is sound)
+            base = meta["keep"] if meta.get("keep") else (light if light is not None else cons)
+            acons = [z3.substitute(c, *subs) for c in base]
             acons += [z3.substitute(l, *subs) for l in meta.get("lemmas", [])]
             agoal = z3.substitute(goal, *subs)
         while True:
@@ -276,7 +278,7 @@ def discharge(check_id, job, pr, out, replay_kind, describe=None, timeout_ms=400
                     # every solver gave up within its budget: one more in-process attempt with a long budget and another seed
                     s3 = z3.Solver()
                     s3.set("timeout", 30000)
-                    s3.set("random_seed", 17)
+                    s3.set("random_seed", 17 + solve.SEED)
                     s3.add(*(cons + blocked))
                     s3.add(z3.Not(goal))
                     out.d["queries"] += 1
@@ -287,6 +289,8 @@ def discharge(check_id, job, pr, out, replay_kind, describe=None, timeout_ms=400
                     # last resort: only the constraints whose symbols all occur in the goal (sound: a subset of the assumptions);
                     # on very long paths the rest is about other candidates and only costs case splits
                     gv = _symbols(goal)
+                    if not gv and pr.pc:
+                        gv = _symbols(pr.pc[-1])     # 'this path cannot happen': the literal that entered the raising branch
                     focus = [c for c in (light if light is not None else cons) if _symbols(c) <= gv]
                     v2, _, info2 = solve.decide(focus, z3.Not(goal), pr.inputs, timeout_ms=5000, ext_timeout_s=60)
                     out.d["queries"] += 1
@@ -296,6 +300,9 @@ def discharge(check_id, job, pr, out, replay_kind, describe=None, timeout_ms=400
             out.d["solver_time"] += time.time() - t0
             out.d.setdefault("time_by_name", {})
             out.d["time_by_name"][name] = out.d["time_by_name"].get(name, 0.0) + time.time() - t0
+            if os.environ.get("VERIF_TRACE"):
+                print("TRACE %s path=%d %r -> %s %.2fs %s" % (json.dumps(job), pr.index, name, v, time.time() - t0,
+                                                              info.get("winner") or info.get("solver")), file=sys.stderr)
             if v == "unsat":
                 if tries == 0:
                     out.d["discharged"] += 1
@@ -410,13 +417,40 @@ def discharge(check_id, job, pr, out, replay_kind, describe=None, timeout_ms=400
 # main side
 # --------------------------------------------------------------------------
 
+RETRIES = 2          # re-runs of a job that ended inconclusive (never of one that reproduced a violation)
+
+
+def _shard_key(modname, job):
+    j = dict(job)
+    if isinstance(j.get("shard"), (list, tuple)) and len(j["shard"]) == 3:
+        j["shard"] = ["*", j["shard"][1], j["shard"][2]]
+    return hashlib.sha1((modname + json.dumps(j, sort_keys=True)).encode()).hexdigest()[:16]
+
+
 def _worker(args):
     modname, job, seed = args
     t0 = time.time()
     try:
         import importlib
         mod = importlib.import_module(modname)
-        res = mod.run_job(job)
+        attempts = []
+        for attempt in range(RETRIES + 1):
+            # A job whose obligations did not all come back unsat is explored again from scratch: which infeasible paths survive
+            # the feasibility budget (and so which non-linear 'this path cannot happen' queries are asked at all) depends on
+            # timing, and such a query is occasionally one that no solver of the portfolio finishes.  A re-run prunes harder
+            # (feasibility budget x4 per attempt) and uses other solver seeds.  It can only turn 'unknown' into a complete
+            # proof of the same job (every path, every obligation) or leave it inconclusive; a reproduced violation is final.
+            symx.SHARD_KEY = _shard_key(modname, job)
+            symx.SHARD_SEQ = 0
+            symx.FEAS_SCALE = 4 ** attempt
+            solve.SEED = 0 if attempt == 0 else 1000 * attempt + 7
+            res = mod.run_job(job)
+            attempts.append({"attempt": attempt, "paths": res.get("paths"), "obligations": res.get("obligations"),
+                             "unknown": res.get("unknown"), "inconclusive": res.get("inconclusive", [])[:3],
+                             "wall_s": round(time.time() - t0, 1)})
+            if res.get("violations") or not res.get("inconclusive"):
+                break
+        res["attempts"] = attempts
         res["wall_s"] = time.time() - t0
         res["solve_stats"] = dict(solve.STATS)
         return res
@@ -455,13 +489,26 @@ def main(check_id, modname, jobs, tier, seed, meta, finding_key=None):
         import random
         random.Random(seed).shuffle(order)
     args = [(modname, jobs[i], seed) for i in order]
-    if nproc == 1 or len(jobs) == 1:
+    import shutil
+    import tempfile
+    scratch = tempfile.mkdtemp(prefix="vf_shards_")     # one prefix list per sharded job, shared by its shards (symx.shared_prefixes)
+    os.environ["VERIF_SHARD_DIR"] = scratch
+    try:
+        results = _run_all(check_id, modname, args, nproc, len(jobs))
+    finally:
+        shutil.rmtree(scratch, ignore_errors=True)
+        os.environ.pop("VERIF_SHARD_DIR", None)
+    return _report(check_id, jobs, tier, seed, meta, finding_key, results, t0)
+
+
+def _run_all(check_id, modname, args, nproc, njobs):
+    if nproc == 1 or njobs == 1:
         results = [_worker(a) for a in args]
     else:
         ctx = mp.get_context("fork")
         results = []
         known0 = load_known()[0]
-        with ctx.Pool(min(nproc, len(jobs))) as pool:
+        with ctx.Pool(min(nproc, njobs)) as pool:
             for r in pool.imap_unordered(_worker, args, chunksize=1):
                 results.append(r)
                 if os.environ.get("VERIF_VERBOSE"):
@@ -472,15 +519,22 @@ def main(check_id, modname, jobs, tier, seed, meta, finding_key=None):
                 if fresh and os.environ.get("VERIF_ALL_VIOLATIONS") != "1":
                     pool.terminate()   # a reproduced violation decides the run; do not burn the budget
                     break
+    return results
+
+
+def _report(check_id, jobs, tier, seed, meta, finding_key, results, t0):
     agg = dict(paths=0, obligations=0, discharged=0, unknown=0, queries=0, solver_time=0.0, cut_bound=0,
                feas_queries=0, feas_time=0.0, feas_unknown=0)
     names = {}
     violations, inconclusive, errors, samples, notes = [], [], [], [], []
     by_solver = {}
+    retried = []
     for r in results:
         if "error" in r:
             errors.append({"job": r.get("job"), "error": r["error"]})
             continue
+        if len(r.get("attempts", [])) > 1:
+            retried.append({"job": r.get("job"), "attempts": r["attempts"]})
         for k in ("paths", "obligations", "discharged", "unknown", "queries", "solver_time", "cut_bound"):
             agg[k] += r.get(k, 0)
         st = r.get("stats", {})
@@ -548,6 +602,7 @@ def main(check_id, modname, jobs, tier, seed, meta, finding_key=None):
         exhaustive=False,
         known_findings_hit=[k for k, _, _ in known_hits],
         inconclusive=inconclusive[:20],
+        jobs_rerun_after_an_inconclusive_attempt=retried[:20],
         errors=errors[:5],
         solver_notes=notes[:10],
         violations=[{"obligation": v["obligation"], "replay": v["replay"], "inputs": v["inputs"]} for v in new_violations][:20],
